@@ -10,13 +10,7 @@ NOTE = ("Trusted: Coq kernel (+VM for witness lemmas), no axioms (Print Assumpti
         "it is tied to /repo only by the correspondence cases each run executes (counts in evidence). ")
 
 CLAIMS = {
- "C04": ("Staged. Proved (Properties/C04.v, vm_compute witnesses): for each class of non-JSON text the code accepts today -- unterminated array / object, "
-         "missing colon, trailing comma, invalid escape, raw line feed in a string, invalid \\u escape, nesting 300 (open and closed) -- the faithful model "
-         "accepts it, the RFC 8259 reference rejects it, it lies in the decidable class diag_dropped and the model with fix F2 rejects it; the legal text "
-         "`1<CR>` is rejected today (class cr_rejected) and accepted with F3. The full equivalence C04_main (acceptance of the fixed model <-> json_text /\\ depth <= 256 /\\ "
-         "dup_consistent) is stated in the file and NOT proved: it is tested on every generated text as 'model with F2+F3 = reference' (0 disagreements) on top of "
-         "token / CST / from_str / from_sources / is_superset(_checked) correspondence over rendered documents, all prefixes and single-character deletions, sampled "
-         "insertions/substitutions, grammar negatives, nesting 1..300, arbitrary Unicode. Oracle: extracted naive RFC recogniser ref_json, cross-checked against serde_json.", "6/C04"),
+ "C04": ('C04_main is a THEOREM about the model of the code as it is now (fixes F2, F3, F11 applied): for every string of Unicode scalar values, accepts cfg_now s = true <-> exists t, json_text s t /\\ jdepth t <= 256 /\\ dup_consistent t = true, where json_text is RFC 8259 written as inductive relations. Proved through lexer / parser / walk completeness (every grammatical text of depth <= 256 is converted to exactly infer_text of its tree, from_str_complete) and soundness (a silent lexer + silent recovering parser + successful walk imply a derivation), ref_json exact (grammar unambiguous), dup_consistent <-> inference succeeds, is_superset / is_superset_checked / from_sources corollaries (non-JSON rejected, too deep rejected). The pre-fix behaviour stays as regression witnesses. Correspondence ties model to /repo: tokens, CST node by node, from_str, from_sources, is_superset* on a systematic malformed stream (~30k texts); oracle: acceptance = reference, cross-checked with serde_json; is_superset probed against the shape of the recovered tree.', "6/C04"),
  "C05": ("Theorems for ALL inputs (Properties/C05.v): from_str / from_sources / is_superset / is_superset_checked of the model never reach a panic site (every Rust "
          "indexing, slicing, unwrap and unreachable site of lexer, parser, CST walk is an explicit Panic value) and never run out of the model's fuel; every "
          "Error::InvalidJson range is inside the input, start<=end, on UTF-8 character boundaries and its fragment is the input at that range (also for from_sources, "
@@ -24,11 +18,7 @@ CLAIMS = {
          "well-formed; both tree-level inference paths never panic and the value path never fails; the value path enters each value once. Correspondence ties "
          "lexer+parser+walk+API to /repo on the malformed stream (CST compared node by node with spans). Runtime part (stack, time, allocator) validated by running: "
          "100000 brackets, multi-MB strings, 1.5 MB objects under a 60 s hang guard, serde_json values to depth 127, hook call counter = node count.", "6/C05"),
- "C07": ("Tree level proved for ALL documents (Properties/C07.v): inference is invariant under any permutation of distinctly named members and under the number of "
-         "repetitions (>=1) of same-shaped array elements; scalar values, lexical forms and whitespace are not part of the tree. Text level (every rendering of a "
-         "tree parses to that tree's inference) is stated, not proved, and tested: independent renderings r(d), r'(d') with permuted members and re-counted "
-         "repetitions must be given equal shapes by the implementation, and from_str(render_text ch d) on the implementation must equal the model's infer_text d "
-         "for the Coq renderer with random choice lists; known class F3 (bare CR).", "6/C07"),
+ "C07": ('Proved for ALL texts: any two RFC 8259 texts of depth <= 256 with the same document tree get the same result (same_tree_same_result); every rendering of a tree (all whitespace forms incl. bare CR / CRLF, number forms, escapes, raw non-ASCII, true/false) parses to infer_text of the tree (parse_render, keys_ok); member order and repetition count are irrelevant at tree and text level. Correspondence: 12k metamorphic pairs + 6k renderer cases + very long arrays / wide objects on the implementation.', "6/C07"),
  "C01": ("Theorems (Properties/C01.v): merger is an upper bound of both operands for ALL well-formed shapes; inference is sound for every document "
          "outside the decidable known class KF1 and total on duplicate-free documents; every source of any non-empty sequence is a member of the "
          "result (carve-out only on the failing document itself); appending a source only widens. KF1 is proved to be a real counterexample "
@@ -81,9 +71,9 @@ CLAIMS = {
          "oracle: bytes twice in one process and in two processes, single file at the macro's path, no file on error, name collision search.", "6/C16"),
 }
 PARTIAL = {
- "C04": "PARTIAL: the all-strings equivalence with the RFC grammar (C04_main) is tested, not proved; proved are the witness theorems and, under C05, the structural invariants of lexer/parser/walk. ",
+ "C04": "The theorem needs Forall scalar s (model characters are unbounded naturals; a Rust &str only holds scalars: witness C04_scalar_needed). The tie model <-> implementation is the executed correspondence. ",
  "C05": "PARTIAL BY NATURE: stack depth, wall time and allocations are runtime facts outside the model; they are validated by running big inputs under a hang guard. Trusted additionally: the logos DFA semantics as modelled in Model/Lexer.v and the transliteration of the lelwel parser in Model/Parser.v, both tied to /repo by token/CST correspondence. ",
- "C07": "PARTIAL: the text-level statement (parse_render) is tested through the renderer correspondence, not proved. ",
+ "C07": "The tie model <-> implementation is the executed correspondence; names spelled with an escape re-read as the decoded name (keys_ok excludes them by definition). ",
  "C12": "Partial by nature: allocator, stack and wall-clock are runtime; the theorems bound call counts, allocations are measured.", "C03": "Partial: the theorem covers exactly the complement of the known class KF2 (merged shape OneOf-free); inside KF2 the property is refuted by witness.", "C09": "Partial: the theorem covers the pairwise core and the 'd is the last source' case; semantic absorption for d in the middle of h is not a theorem.",
  "C13": "Partial: 'wf_module implies rustc accepts' is validated on rustc batches, not proved; codegen / convert_case / checksum are modelled (printable-ASCII member names) and validated by correspondence. ",
  "C14": "Partial: the item parser applied to the real text is Python (validated against the model's item list on every case). ",
